@@ -122,6 +122,7 @@ type Config struct {
 // observed answer: cells as float64/int/string exactly as returned, canonicalised later against column kinds
 type obsSeries struct {
 	tags map[string]string
+	cols []string
 	rows [][]any
 }
 
@@ -148,8 +149,9 @@ func runQuery(db, sql string, c Config) ([]obsSeries, string) {
 		var r struct {
 			Results []struct {
 				Series []struct {
-					Tags   map[string]string `json:"tags"`
-					Values [][]any           `json:"values"`
+					Tags    map[string]string `json:"tags"`
+					Columns []string          `json:"columns"`
+					Values  [][]any           `json:"values"`
 				} `json:"series"`
 				Error string `json:"error"`
 			} `json:"results"`
@@ -171,7 +173,7 @@ func runQuery(db, sql string, c Config) ([]obsSeries, string) {
 				if n := len(out); n > 0 && sameTags(out[n-1].tags, s.Tags) {
 					out[n-1].rows = append(out[n-1].rows, s.Values...)
 				} else {
-					out = append(out, obsSeries{tags: s.Tags, rows: s.Values})
+					out = append(out, obsSeries{tags: s.Tags, cols: s.Columns, rows: s.Values})
 				}
 			}
 		}
@@ -275,6 +277,24 @@ func canonObs(o []obsSeries, q *Query, ks []colKind) (string, string) {
 		}
 		fmt.Fprintf(&sb, "S%v\n", key)
 		for _, r := range s.rows {
+			if q.Star {
+				// SELECT *: pick the field columns by name (fields the data set never carries are absent), drop tag columns
+				rr := make([]any, len(fieldNames)+1)
+				for ci, cn := range s.cols {
+					if ci >= len(r) {
+						break
+					}
+					if cn == "time" {
+						rr[0] = r[ci]
+					}
+					for fi, fnm := range fieldNames {
+						if cn == fnm {
+							rr[fi+1] = r[ci]
+						}
+					}
+				}
+				r = rr
+			}
 			if len(r) != len(ks)+1 {
 				return "", fmt.Sprintf("row width %d", len(r))
 			}
@@ -445,9 +465,26 @@ type Features struct {
 	// SelectorTie: single min()/max() without time(): in some group the extreme value occurs at two timestamps
 	SelectorTie bool `json:"selector_tie"`
 	// MultiSeriesGroup: some group of the query is fed by two or more series
-	MultiSeriesGroup bool   `json:"multi_series_group"`
-	HasTie           bool   `json:"has_tie"` // plain selection: two rows of one group share a timestamp
-	Layout           string `json:"layout"`  // inorder | ooo (how the data set was written)
+	MultiSeriesGroup bool `json:"multi_series_group"`
+	// CountNullInRow: some pre-fill row has a null cell in a count() column (and a value in another column)
+	CountNullInRow bool `json:"count_null_in_row"`
+	// NSeries: series passing the tag tests of the query
+	NSeries int    `json:"nseries"`
+	HasTie  bool   `json:"has_tie"` // plain selection: two rows of one group share a timestamp
+	Layout  string `json:"layout"`  // inorder | ooo (how the data set was written)
+}
+
+func tagOnly(p *Pred) bool {
+	if p == nil {
+		return true
+	}
+	switch p.Op {
+	case "and", "or":
+		return tagOnly(p.A) && tagOnly(p.B)
+	case "field":
+		return false
+	}
+	return true
 }
 
 func features(ds *Dataset, q *Query) Features {
@@ -459,6 +496,11 @@ func features(ds *Dataset, q *Query) Features {
 		f.FilledRows += len(s.Rows)
 	}
 	f.Groups = len(a)
+	for i := range ds.Series {
+		if tagOnly(q.Pred) && evalPred(q.Pred, &ds.Series[i], &Row{V: make([]*int64, len(fieldNames))}) {
+			f.NSeries++
+		}
+	}
 	for i := range ds.Series {
 		for j := i + 1; j < len(ds.Series); j++ {
 			if cmpKey(keyOf(&ds.Series[i], q.Group), keyOf(&ds.Series[j], q.Group)) == 0 {
@@ -514,6 +556,11 @@ func features(ds *Dataset, q *Query) Features {
 				}
 				if nn > 0 && nn < len(r.C) {
 					f.PartialRow = true
+					for ci, c := range r.C {
+						if c.Null && q.Aggs[ci].Fn == "count" {
+							f.CountNullInRow = true
+						}
+					}
 				}
 			}
 		}
@@ -700,8 +747,16 @@ type inputFile struct {
 	Inner   []int    `json:"inner,omitempty"` // extra inner_chunk_size values to try
 }
 
-func configsFor(phase string, parallel int, tier string, extraInner []int) []Config {
+func configsFor(phase string, parallel int, tier string, extraInner []int, reduced bool) []Config {
 	var cs []Config
+	if reduced {
+		for _, d := range []bool{false, true} {
+			for _, in := range []int{0, 1} {
+				cs = append(cs, Config{Inner: in, Parallel: parallel, Phase: phase, Desc: d})
+			}
+		}
+		return cs
+	}
 	inners := []int{0, 1, 2, 3, 7}
 	if tier != "quick" {
 		inners = []int{0, 1, 2, 3, 4, 5, 7, 16, 64}
@@ -769,7 +824,7 @@ func main() {
 	}
 	for i := 0; i < nds; i++ {
 		rr := r.Fork()
-		ds := genDataset(rr, fmt.Sprintf("g%d", i))
+		ds := genDataset(rr, fmt.Sprintf("g%d", i), i%2 == 1)
 		// most data sets are written in time order; every third one out of order (see NOTES: known findings)
 		ds.InOrder = i%3 != 2
 		if os.Getenv("C08_LAYOUT") == "inorder" {
@@ -830,12 +885,12 @@ func main() {
 	// phase "mem": two flushed batches (out of order) + one batch in the memtable
 	results := map[string][]*Case{}
 	runPhase := func(phase string, parallels []int) {
-		for _, p := range parallels {
+		for pi, p := range parallels {
 			if err := ctrl(fmt.Sprintf("mod=chunk_reader_parallel&limit=%d", p)); err != nil {
 				fail("ctrl: %v", err)
 			}
 			for _, w := range works {
-				cfgs := configsFor(phase, p, tier, w.inner)
+				cfgs := configsFor(phase, p, tier, w.inner, pi > 0 && tier == "quick")
 				for qi, q := range w.queries {
 					c := runCase(w.ds, q, cfgs, w.source)
 					key := fmt.Sprintf("%s/%d", w.ds.Name, qi)
@@ -844,7 +899,7 @@ func main() {
 			}
 		}
 	}
-	runPhase("mem", []int{1, 4})
+	runPhase("mem", []int{1, 2, 4, 0})
 	if err := ctrl("mod=flush"); err != nil {
 		fail("flush: %v", err)
 	}
@@ -853,7 +908,7 @@ func main() {
 			fail("after flush: %v", err)
 		}
 	}
-	runPhase("flushed", []int{2})
+	runPhase("flushed", []int{2, 1, 0})
 	if tier != "quick" {
 		// give level compaction / out-of-order merge a chance, then query again
 		for _, m := range []string{"compen", "merge"} {
